@@ -310,7 +310,9 @@ func (m *Machine) solveAll(s *SMT, obs []*Obligation, workers int) {
 		}()
 	}
 	// queries are built sequentially (the symbol table is not concurrent), solved in parallel
-	m.queryOf = map[*Obligation]string{}
+	if m.queryOf == nil {
+		m.queryOf = map[*Obligation]string{}
+	}
 	var todo []*Obligation
 	for _, o := range obs {
 		if o.Res != nil {
